@@ -19,6 +19,9 @@
      VLateDrop  report, await closed, close the front channel, close the transport; the queue and the manager
                 handle are dropped only when send_task returns, i.e. after close() has completed
      VOldOrder  close the front channel, close the transport, report (and the late drop).
+   and one hypothetical reordering that the translator tools/translators/shutdown_order.py can recognise:
+     VNoWait    as VNow but without `close_tx.closed().await`: the front receiver is dropped right after the report.
+   Gen/ShutdownOrderGen.v (regenerated from the source on every check) says which variant the source implements.
 
    What the transport can do: `TransportReceiverT::receive` returns `Result<ReceivedMessage, Error>`: there is
    no end-of-stream value, and read_task wraps the receiver in `stream::unfold` that always yields `Some`, so
@@ -161,9 +164,10 @@ Inductive label :=
 | LCallerDropped (h : handle)    (* the caller's oneshot receiver sees its sender dropped *)
 | LReadErr (h : handle).         (* read_error: conn.closed() resolved, reason read *)
 
-Inductive variant := VNow | VLateDrop | VOldOrder.
+Inductive variant := VNow | VLateDrop | VOldOrder | VNoWait.
 Definition old_order (v : variant) : bool := match v with VOldOrder => true | _ => false end.
-Definition early_drop (v : variant) : bool := match v with VNow => true | _ => false end.
+Definition early_drop (v : variant) : bool := match v with VNow | VNoWait => true | _ => false end.
+Definition no_wait (v : variant) : bool := match v with VNoWait => true | _ => false end.
 
 Definition after_break (old : variant) (r : res) : spc := if old_order old then OCloseFront r else SReport r.
 
@@ -226,7 +230,7 @@ Definition effect (old : variant) (s : state) (l : label) : state :=
   | LSNotice | LSFrontNone => set_sp s (after_break old None)
   | LSReport =>
     match sp s with
-    | SReport r => set_sp (push s r) SAwaitClosed
+    | SReport r => set_sp (push s r) (if no_wait old then SCloseFront else SAwaitClosed)
     | OReport r => set_sp (push s r) SExited
     | _ => s
     end
